@@ -384,6 +384,34 @@ PROPS["C07"] = dict(
                 "check_path_is_file; bounded: app decision logic, audit of touched paths, validation of the assumptions.",
 )
 
+PROPS["C12"] = dict(
+    modules=["common", "hdrs", "c03", "c02", "c05", "c13", "c14", "c16", "c18", "c07", "c12"],
+    contracts=["parse_range", "wsgi.FileResponse.__call__", "asgi.FileResponse.__call__", "if_none_match", "if_modified_since",
+               "check_path_is_file", "URL._build_url", "request.cookies", "request.content_length", "request.date"],
+    refute={"quick": [2], "thorough": [1, 2, 3]},
+    native="c12",
+    level="other",
+    trusted=["A-py-1", "A-solver", "A-pyvc"],
+    level_text="Mixed. Exception-freedom is a contract clause: for every function under contract the executor computes, path by "
+               "path, which exception classes can escape (from the raise statements, the try/except structure of the real code "
+               "and the raise clauses of the stubs for int(), decode(), dict[k], unpacking, os.stat, parsedate_to_datetime, ...) "
+               "and every escaping class that the contract does not allow is an obligation `noraise.<Class>` (goal: the path is "
+               "infeasible). PROVED: parse_range raises only MalformedRangeHeader / RangeNotSatisfiable (400/416), exactly under "
+               "the stated conditions, also for numerals beyond int()'s digit limit; both FileResponse.__call__ turn them into "
+               "400/416 responses and let nothing else escape for client-controlled input; if_none_match, if_modified_since, "
+               "check_path_is_file (missing entry / path below a file), the cookie parser, content_length and date return a "
+               "value for every header value; URL._build_url raises only for an unknown scheme or a non-UTF-8 query "
+               "string. BOUNDED (labelled): grammar-aware mutations and raw Latin-1 noise against every accessor, JSON / "
+               "form / multipart parsing, routing and the static-file apps on both interfaces, classifying what escapes.",
+    level_note="Trusted: the raise catalogue of the stubs (validated by the bounded layer). Known findings (open): the request URL "
+               "built from a malformed Host header raises ValueError (urlsplit); an urlencoded form body that cannot be decoded "
+               "with the declared charset raises UnicodeDecodeError / LookupError. Functions not under contract (Request.json/"
+               "form, MultipartDecoder, Route.matches, Files/Pages.__call__) are covered by the bounded layer only.",
+    technique="deductive verification: exceptional postconditions (allowed-exception sets) discharged per path over the real try/except structure, SMT; bounded grammar-aware fuzzing with known-finding regions",
+    explanation="proved: allowed-exception sets of parse_range, FileResponse.__call__ (both), validator predicates, stat wrapper, "
+                "cookie parser, content_length, date, _build_url; bounded: fuzzing of all entry points incl. JSON/form/multipart.",
+)
+
 NOT_APPLICABLE = {
     "C06": "quantifies over schedules/interleavings (relay thread vs consumer vs closer, asyncio tasks vs ping timer) and is a "
            "bounded-liveness claim; contracts over a sequential, await-erased semantics cannot express an interleaving and "
